@@ -117,6 +117,14 @@ class Scripted:
 
     def init(self, args):
         self.events.append("I")
+        if getattr(self, "init_edits", None):
+            # the documented init() hook touches the testcase file (normalises it, appends a marker) before any test
+            saved, _watch["events"] = _watch["events"], None
+            try:
+                with open(self.path, "ab") as f:
+                    f.write(self.init_edits)
+            finally:
+                _watch["events"] = saved
 
     def cleanup(self, args):
         self.events.append("X")
@@ -153,6 +161,9 @@ class Scripted:
                     open(self.path, "wb").close()
                 elif mode == "delete":
                     os.remove(self.path)
+                elif mode == "stamp":       # edits the head of the file IN PLACE (a tool stamping / normalising a header): same length
+                    with open(self.path, "r+b") as f:
+                        f.write(b"STAMPED-BY-TEST-%04d" % (self.k % 10000))
             finally:
                 _watch["events"] = saved
         if ans == "R":
@@ -333,7 +344,7 @@ class Run:
 
 def impl_run(strategy, cfg, tc, file0, verdict, clock=(), exc_class=TestRaised, atom="line",
              cap=5000, load=False, ext=".txt", watchdog=30.0, auto_tmp=False, via_link=None, prefill=None,
-             light=None, hooks=("init", "cleanup"), log_level=None, scribble=None, warmup=None):
+             light=None, hooks=("init", "cleanup"), log_level=None, scribble=None, warmup=None, init_edits=None):
     """tc = (before, parts, reducible, after) placed directly into a testcase object, or (when
     load=True) ignored in favour of Testcase.load(file0).  verdict: str or callable(k, data)."""
     import lithium.strategies as st
@@ -382,6 +393,7 @@ def impl_run(strategy, cfg, tc, file0, verdict, clock=(), exc_class=TestRaised, 
         script = scripted_with(hooks)(real_path, tmp, verdict, events, exc_class, cap)
         script.light = light
         script.scribble = scribble
+        script.init_edits = init_edits
         lith = Lithium()
         lith.strategy = make_strategy(strategy, cfg)
         if warmup is not None:
